@@ -103,14 +103,32 @@ def run_cases(ctx, cases, prefix, canary=None, only=None):
             for n, t in ins.items():
                 if n not in case.mutates:
                     G.check_eq(vc, nm + "/input %s unchanged" % n, t, before[n])
+        p0 = vc.paths
+        pre = "generic/%s/" % case.name
         try:
             npaths = G.explore(vc, thunk, case.name)
+            und = [k for k, v in vc.results.items() if k.startswith(pre) and any(x[0] == "undecided" for x in v)
+                   and not any(x[0] == "violated" for x in v)]
+            if und and npaths == 1:
+                # the normal form is incomplete here (e.g. softplus written out as log(1 + exp)): no certificate for every
+                # shape, no counterexample among the sampled sizes and values either; the per-shape proof of the same
+                # function stands.  With a single path no size-dependent branch exists that only this run would see.
+                for k in und:
+                    why = [x[1] for x in vc.results[k] if x[0] == "undecided"][0]
+                    ctx.generic_skipped = getattr(ctx, "generic_skipped", []) + [(case.name, "not decided by normal form: %s" % str(why)[:160])]
+                    del vc.results[k]
             done.append((case.name, npaths))
         except Unmodelled as e:
             # outside the modelled fragment of front end G: no shape-generic certificate for this function (the
             # per-shape proof of the same property still stands); recorded, never counted
-            ctx.generic_skipped = getattr(ctx, "generic_skipped", []) + [(case.name, str(e)[:200])]
-            vc.results = {k: v for k, v in vc.results.items() if not k.startswith("generic/%s/" % case.name)}
+            npaths = vc.paths - p0
+            vc.results = {k: v for k, v in vc.results.items() if not k.startswith(pre)}
+            if npaths > 1:
+                # ... unless the code branches on a size: the enumerated shapes cannot vouch for the other branch
+                vc._record(pre + "a branch taken only for some sizes is outside the modelled fragment", "undecided",
+                           "unmodelled on a size-dependent path: %s" % str(e)[:200], None, 0.0, "tensor-normal-form")
+            else:
+                ctx.generic_skipped = getattr(ctx, "generic_skipped", []) + [(case.name, str(e)[:200])]
     vc.flush(prefix)
     ctx.generic_done = getattr(ctx, "generic_done", []) + done
     for a in sorted(G.ASSUMED):
